@@ -19,7 +19,12 @@ require (
 	github.com/iotaledger/hive.go/web v0.0.0
 )
 
-require github.com/kr/text v0.2.0 // indirect
+require (
+	github.com/ethereum/go-ethereum v1.13.14 // indirect
+	github.com/holiman/uint256 v1.2.4 // indirect
+	github.com/iancoleman/orderedmap v0.3.0 // indirect
+	github.com/kr/text v0.2.0 // indirect
+)
 
 replace (
 	github.com/iotaledger/hive.go/ads => /repo/ads
